@@ -189,6 +189,16 @@ def corpus():
     out.append(case(CT_MP, part(CD + b'name="f\x00"; filename="x\x00.bin"', b'DATA', b'\r\nContent-Type: a/b') + END,
                     access='POST'))
     out.append(case(CT_MP, part(CD + b'name="t"', b'v', b'\r\nX-Custom: a\x00b') + END))
+    # ---- the delimiter search across scan blocks and received chunks: value lengths 0..3*len(token) (one alignment in
+    # len(token) puts the CR of the next delimiter at the end of a block), and a buffer boundary at every offset of a
+    # small two-part body (max_memfile_size IS the chunking) — seed C12-17
+    for ln in range(0, 22):
+        out.append(case(CT_MP, part(CD + b'name="a"', b'x' * ln) + part(CD + b'name="b"', b'v') + END, access='POST'))
+    small = part(CD + b'name="a"', b'12345') + part(CD + b'name="b"', b'v') + END
+    for cut in range(1, len(small) + 1):
+        out.append(case(CT_MP, small, mem=max(cut, 45), sched=[cut - 1] + [999] * 3, access='forms'))
+    for piece in range(1, 40):
+        out.append(case(CT_MP, F.chunked(small, [piece]), cl=-1, chunked=True, mem=64, access='forms'))
     # ---- data consumed LAZILY, after the handler (and Ombott._handle) returned, with bodies above max_memfile_size
     # (buffered in a temporary file): generator handlers, an upload's file object returned as the response
     bigf = part(CD + b'name="f"; filename="x.bin"', bytes(range(256)) * 3, b'\r\nContent-Type: a/b')
@@ -386,7 +396,9 @@ def gen(rng, n):
         chunked_ok = True
         if r < 0.006:
             body = part(nasty_header(rng), b'v') + (END if rng.random() < 0.8 else b'')
-            yield case(CT_MP, body, mem=rng.choice([102400, 64, 17]), access=rng.choice(['forms', 'files', 'POST']))
+            c = case(CT_MP, body, mem=rng.choice([102400, 64, 17]), access=rng.choice(['forms', 'files', 'POST']))
+            c['hang_family'] = True
+            yield c
             continue
         if r < 0.55:
             body = good_multipart(rng)
@@ -487,7 +499,29 @@ COV_TARGETS = {
 }
 
 
+def _in_child(case):
+    """a hang inside C code (a regular expression that backtracks for ever) holds the interpreter lock: off the main
+    thread no alarm can fire.  Cases of the hang-searching family that check.py serves on a worker thread are
+    therefore run in a child process, where the 1.5 s alarm works (and a timeout here is the backstop)."""
+    import os
+    import subprocess
+    import sys
+    tools = os.path.normpath(os.path.join(os.path.dirname(os.path.abspath(__file__)), '..'))
+    code = ('import sys, json; sys.path.insert(0, %r); sys.path.insert(0, %r); from props import C12; '
+            'print(json.dumps(C12._run_impl(json.loads(sys.stdin.read()))))' % (tools, os.environ.get('VERIF_REPO', '/repo')))
+    try:
+        r = subprocess.run([sys.executable, '-c', code], input=json.dumps(case), capture_output=True, text=True,
+                           timeout=F.HANG_LIMIT + 4)
+        return json.loads(r.stdout.strip().split('\n')[-1])
+    except subprocess.TimeoutExpired:
+        return {'hang': True}
+
+
 def run_impl(case):
+    import threading
+    if (case.get('hang_family') or b'\\\\\\\\' in bytes(case['data'][:400])) \
+            and threading.current_thread() is not threading.main_thread():
+        return _in_child(case)
     return F.covered(ID, COV_TARGETS, _run_impl, case)
 
 
@@ -695,6 +729,8 @@ def oracle(case, obs):
                 while j >= 0 and not ok:
                     ok = (j + 4 + len(d)) in ends
                     j = body.find(b'\r\n\r\n' + d + tok, j + 1)
+                if (d + tok).find(tok) != len(d):
+                    ok = False                       # it runs on through a delimiter: the FIRST one after its start ends a part
                 if not ok:
                     return 'delivered field %r = %r is not the complete data of a delimiter-terminated part' % (
                         bytes(key), d[:60])
